@@ -7,7 +7,7 @@ From ClapModel Require Import Parse.Cmd Parse.Build Parse.Valid Parse.Matcher Pa
 From ClapModel Require Import ParseProofs.Safe ParseProofs.Invariant ParseProofs.Totality
                               ParseProofs.ValidateTotal ParseProofs.Relations ParseProofs.TotalityMain
                               ParseProofs.Sites ParseProofs.SitesComplete ParseProofs.FlagSubClass
-                              ParseProofs.FsTotality ParseProofs.FsAny ParseProofs.FsLine ParseProofs.FsTop ParseProofs.SitesCoverage.
+                              ParseProofs.FsTotality ParseProofs.FsAny ParseProofs.FsLine ParseProofs.FsResume ParseProofs.FsTop ParseProofs.SitesCoverage.
 From ClapModel Require Import Errors.RenderModel Errors.RenderLink.
 From ClapModel Require Gen.ErrorCtx.
 From ClapModel Require Gen.ParseSites.
@@ -568,7 +568,9 @@ Print Assumptions C01_render_path_sites.
     - a structured error that stands for rich errors each of which renders without panic, and that under error-ignoring is a
       help / version request, or
     - (the recorded finding, and nothing else) the panic of the one debug assertion 920 -- and then the definition is outside
-      [flag_sub_class] AND the line contains a short cluster of more than one character;
+      [flag_sub_class] AND the line contains a short cluster in which a short flag-subcommand letter of the definition is
+      followed by further characters (for every letter set [L] covering those letters the line is outside [no_resume L];
+      in particular it contains a cluster of more than one character);
     never out of fuel, never "invalid configuration", never another panic site. *)
 Theorem C01_entry_point_summary : forall c0 argv, unbuilt c0 = true -> valid c0 = true ->
   match parse_top c0 argv with
@@ -577,6 +579,7 @@ Theorem C01_entry_point_summary : forall c0 argv, unbuilt c0 = true -> valid c0 
       (rich_alternatives e <> [] /\ forall r, In r (rich_alternatives e) -> forall dbg s, render dbg r <> Panic s)
       /\ (is_set s_ignore_errors c0 = true -> e_kind e = EDisplayHelp \/ e_kind e = EDisplayVersion)
   | OPanicked s => s = 920 /\ flag_sub_class c0 = false /\ single_clusters argv = false
+                   /\ (forall L, letters_inb L c0 = true -> no_resume L argv = false)
   | OOutOfFuel | OInvalidConfig => False
   end.
 Proof. exact entry_point_summary. Qed.
@@ -592,3 +595,51 @@ Theorem C01_renders_argv : forall c0 argv e, parse_top c0 argv = OErr e ->
        /\ (rich_expected r = true -> forall dbg, exists txt, write_dynamic_context dbg r = Done (true, txt)).
 Proof. exact parser_errors_render_top. Qed.
 Print Assumptions C01_renders_argv.
+
+(** ---------- round 5 (F): the line side, sharpened: the resume logic is never engaged ----------
+    ParseProofs/FsResume.v.  [letters_inb L c0] (syntactic): [L] contains every short flag and short-flag alias of every
+    subcommand of the definition, at every depth.  [no_resume L argv]: in no short cluster of the line is a character of [L]
+    followed by further characters (`-abc`, `-ovalue`, `-j4`, `-o=v`, `-abS` are fine; `-Sx` is not). *)
+
+(** for EVERY definition the gate accepts, every covering letter set and every line of the class, parsing never reaches a
+    panic site nor runs out of fuel -- [flag_subcmd_at] stays unset at every level, so [flag_subcmd_skip] stays 0.
+    [C01_no_panic_single_clusters] is the special case ([C01_single_clusters_no_resume]). *)
+Theorem C01_no_panic_no_resume : forall c0 L toks,
+  unbuilt c0 = true -> valid c0 = true -> letters_inb L c0 = true -> no_resume L toks = true ->
+  match do_parse c0 toks with OPanicked _ | OOutOfFuel => False | _ => True end.
+Proof. exact do_parse_no_resume. Qed.
+Print Assumptions C01_no_panic_no_resume.
+
+Theorem C01_no_panic_no_resume_argv : forall c0 L argv,
+  unbuilt c0 = true -> valid c0 = true -> letters_inb L c0 = true -> no_resume L argv = true ->
+  match parse_top c0 argv with OPanicked _ | OOutOfFuel => False | _ => True end.
+Proof. exact parse_top_no_resume. Qed.
+Print Assumptions C01_no_panic_no_resume_argv.
+
+Theorem C01_single_clusters_no_resume : forall L toks, single_clusters toks = true -> no_resume L toks = true.
+Proof. exact single_clusters_no_resume. Qed.
+Print Assumptions C01_single_clusters_no_resume.
+
+(** the step behind it, for ANY parser state and ANY [flag_subcmd_skip]: on a cluster of the class [parse_short_arg] reports a
+    short flag-subcommand only with [flag_subcmd_at] cleared (so the loop does not ask for [keep_state]) *)
+Theorem C01_flag_sub_at_end_clears_at : forall c L, (forall ch, In ch (letters_here c) -> In ch L) ->
+  forall r pst pc vaf st st1 n vaf1, CO L r ->
+  parse_short_arg c r pst pc vaf st = ROk (st1, PRFlagSub n, vaf1) -> fs_at st1 = None.
+Proof.
+  intros c L HL r pst pc vaf st st1 n vaf1 Hco H.
+  pose proof (parse_short_arg_at c L HL r pst pc vaf st Hco) as G. rewrite H in G. exact (G n eq_refl).
+Qed.
+Print Assumptions C01_flag_sub_at_end_clears_at.
+
+(** non-vacuity and sharpness on the nested definition of the finding (letters S, Q) *)
+Theorem C01_no_resume_examples :
+  unbuilt stale_cmd = true /\ valid stale_cmd = true /\ flag_sub_class stale_cmd = false
+  /\ letters_inb [83; 81] stale_cmd = true /\ letters_inb [83] stale_cmd = false
+  /\ no_resume [83; 81] [[112]; [45; 83]; [45; 120; 119; 81]; [45; 121]] = true
+  /\ outcome_kind (parse_top stale_cmd [[112]; [45; 83]; [45; 120; 119; 81]; [45; 121]]) = Some None
+  /\ single_clusters [[112]; [45; 83]; [45; 120; 119; 81]; [45; 121]] = false
+  /\ no_resume [83; 81] [[112]; [45; 83; 120]; [45; 81; 121]] = false
+  /\ no_resume [83; 81] [[112]; [45; 83; 120]] = false
+  /\ outcome_kind (parse_top stale_cmd [[112]; [45; 83; 120]]) = Some None.
+Proof. exact no_resume_examples. Qed.
+Print Assumptions C01_no_resume_examples.
